@@ -185,6 +185,7 @@ inductive Op where
   | delKey (d : Nat) (k : Key)               -- `del roots[d][k]`
   -- the API
   | getitem (x : Nat) (k : Key)              -- `roots[x][k]`
+  | get (x : Nat) (k : Key) (dflt : Leaf)    -- `roots[x].get(k, dflt)` (`Mapping.get`: `self[k]`, `dflt` on KeyError)
   | items (x : Nat)                          -- `[v for _, v in roots[x].items()]`
   | freeze (x : Nat)                         -- `freeze(x)` = `FrozenDict(x)`
   | unfreeze (x : Nat)                       -- `unfreeze(x)` (= `x.unfreeze()`)
@@ -265,6 +266,29 @@ def step (w : World) (op : Op) : Except Err World :=
         | .ok kvs =>
           match kvGet kvs k with
           | none => .error .keyError
+          | some v =>
+            match wrapVal h v with
+            | .error e => .error e
+            | .ok (h1, v') => .ok ⟨h1, rs ++ [v']⟩
+      | none => .error .dangling
+    | some (.leaf _) => .error .typeError
+    | none => .error .badHandle
+  | .get x k dflt =>
+    -- inherited `Mapping.get`: `try: return self[key]` / `except KeyError: return default` — so a nested dict
+    -- comes out re-wrapped exactly as with `__getitem__`; for a plain dict `dict.get`
+    match rs[x]? with
+    | some (.ref a) =>
+      match h[a]? with
+      | some (.dict _ kvs) =>
+        match kvGet kvs k with
+        | some v => .ok ⟨h, rs ++ [v]⟩
+        | none => .ok ⟨h, rs ++ [.leaf dflt]⟩
+      | some (.frozen i) =>
+        match innerKvs h i with
+        | .error e => .error e
+        | .ok kvs =>
+          match kvGet kvs k with
+          | none => .ok ⟨h, rs ++ [.leaf dflt]⟩
           | some v =>
             match wrapVal h v with
             | .error e => .error e
